@@ -233,6 +233,11 @@ class RpcClient:
         resp_type: t.Type[T],
         encrypt_offsets: t.Optional[tuple[int, int]] = None,
     ) -> T:
+        if self._auth and encrypt_offsets and not pdu_header.auth_len and pdu_header.packet_type == PacketType.RESPONSE:
+            # The request was sealed, a response that is not protected by the
+            # security context could have been sent by anyone.
+            raise ValueError("Received RPC response without a security trailer on an authenticated connection")
+
         if self._auth and encrypt_offsets and pdu_header.auth_len:
             view = memoryview(response)
 
